@@ -133,6 +133,13 @@ def _keyfile(ctx, R, T):
             ok = len(parts) in (3, 4) and parts[0] == ("c", " ") and ((len(parts) == 4 and parts[2] == ("c", "@")) or
                                                                     (len(parts) == 3 and parts[2][0] == "c" and isinstance(parts[2][1], str) and parts[2][1].startswith("@") and len(parts[2][1]) > 1))
             R.check(ok, "KEYFILE", gi.qualname + "|" + norm_stmt(rn.ast), "comment = ' ' + user + '@' + host", "get_user_info returns %s, expected ' ' + user + '@' + host" % show(t)[:160], gi.loc(rn.ast))
+    # user and host are what the system says: both look-ups are attempted on every path to a return (also when the other one failed)
+    for ext, what in (("os.getlogin", "login name"), ("socket.gethostname", "host name")):
+        sites = [n for n in gg.live_nodes() for c in node_calls(n) if ctx.cg.site(c) is not None and ctx.cg.site(c).ext == ext]
+        rets = [rn for rn in gg.live_nodes() if rn.kind == "stmt" and isinstance(rn.ast, ast.Return)]
+        okl = bool(sites) and all(gg.dominates(sites, rn, exc=True) for rn in rets)
+        R.check(okl, "KEYFILE", gi.qualname + "|looks-up|" + ext, "the %s is looked up on every path" % what,
+                "the %s (%s) is not looked up on every path to a return: the comment can say 'unknown' although the system knows it" % (what, ext), gi.loc())
 
 
 def _sign_method(ctx, clsq):
